@@ -1,3 +1,4 @@
 SPECIFICATION Spec
 POSTCONDITION PostCond
 CHECK_DEADLOCK FALSE
+CONSTANT NodeIdRule = "fixed"
